@@ -17,6 +17,7 @@ import TallyVerif.Driver.View
 import TallyVerif.Driver.Discover
 import TallyVerif.Driver.Migrate
 import TallyVerif.Driver.Legacy
+import TallyVerif.Driver.Config
 /-! `tvdrv`: one JSON object per line in, one canonical JSON object per line out. -/
 open Lean TallyVerif.Driver
 
@@ -57,6 +58,10 @@ def dispatch (j : Json) : Json :=
   | "viewkeys" => handleViewKeys j
   | "fs" => FsD.handleFs j
   | "fsseq" => FsD.handleFsSeq j
+  | "config" => handleConfig j
+  | "resolvesource" => handleResolveSource j
+  | "paths" => handlePaths j
+  | "truthy" => handleTruthy j
   | "ping" => obj [("pong", .bool true)]
   | op => obj [("err", .str s!"unknown op {op}")]
 
